@@ -383,7 +383,7 @@ fn resolve_posix_tz_string_for_epoch_seconds(
         TransitionType::Std => end,
     };
     let year = utils::epoch_time_to_epoch_year(seconds * 1000);
-    let year_epoch = utils::epoch_days_for_year(year) * 86400;
+    let year_epoch = i64::from(utils::epoch_days_for_year(year)) * 86400;
     let leap_day = utils::mathematical_in_leap_year(seconds * 1000) as u16;
 
     let days = match transition.day {
